@@ -183,6 +183,9 @@ func (c *Check) Sample(v any) {
 	c.mu.Unlock()
 }
 
+// Samples returns the samples recorded so far.
+func (c *Check) Samples() []any { c.mu.Lock(); defer c.mu.Unlock(); return c.samples }
+
 func (c *Check) Count(k string, n int64) { c.mu.Lock(); c.counters[k] += n; c.mu.Unlock() }
 
 // Exhaustive ANDs into the exhaustive flag of the run.
